@@ -109,6 +109,16 @@ func runCases(casesPath string, outPath string) {
 		switch f[0] {
 		case "lex":
 			fmt.Fprintf(out, "lex %s %s\n", f[1], runLex(unhx(f[2])))
+		case "parse":
+			for len(f) < 4 {
+				f = append(f, "")
+			}
+			fmt.Fprintf(out, "parse %s %s\n", f[1], runParse(f))
+		case "emit":
+			for len(f) < 4 {
+				f = append(f, "")
+			}
+			fmt.Fprintf(out, "emit %s %s\n", f[1], runEmit(f))
 		case "tsh":
 			for len(f) < 7 {
 				f = append(f, "")
@@ -116,6 +126,14 @@ func runCases(casesPath string, outPath string) {
 			fmt.Fprintf(out, "tsh %s %s\n", f[1], runTsh(f))
 		default:
 			fmt.Fprintf(out, "unknown-case-kind %s\n", f[0])
+		}
+	}
+}
+
+func sortStrings(s []string) {
+	for i := 1; i < len(s); i++ {
+		for j := i; j > 0 && s[j] < s[j-1]; j-- {
+			s[j], s[j-1] = s[j-1], s[j]
 		}
 	}
 }
